@@ -987,14 +987,34 @@ func checkSilentTargets(c *Ctx, res *report.Result, f *ssa.Function, rule string
 				continue
 			}
 			if eRange == dRange {
-				// same loop: the entry's block must dominate the hand-over or lie under the absent test that does
+				// same loop: the absent test precedes the hand-over and, with the "already present" edge pruned, no path
+				// from the test to the hand-over avoids the entry creation
+				if flow.InstrDominates(e, d) {
+					ensured = true
+				}
 				for _, g := range flow.Guards(e.Block()) {
-					if gi, isI := g.Cond.(ssa.Instruction); isI && gi.Block().Dominates(d.Block()) {
+					ex, isEx := g.Cond.(*ssa.Extract)
+					if !isEx || ex.Index != 1 {
+						continue
+					}
+					lk, isL := ex.Tuple.(*ssa.Lookup)
+					if !isL {
+						continue
+					}
+					if _, fld, okf := flow.FieldLoadOf(lk.X); !okf || fld != "ackByTarget" {
+						continue
+					}
+					if !flow.InstrDominates(lk, d) {
+						continue
+					}
+					present := func(a, b *ssa.BasicBlock) bool {
+						iff := lastIfOf(a)
+						return iff != nil && iff.Cond == ssa.Value(ex) && len(a.Succs) == 2 && b == a.Succs[0]
+					}
+					r := flow.FindPath(flow.After(lk), func(x ssa.Instruction) bool { return x == ssa.Instruction(d) }, func(x ssa.Instruction) bool { return x == ssa.Instruction(e) }, func(a, b *ssa.BasicBlock) bool { return !present(a, b) })
+					if !r.Found {
 						ensured = true
 					}
-				}
-				if e.Block().Dominates(d.Block()) {
-					ensured = true
 				}
 			} else if eRange.Block().Dominates(d.Block()) {
 				// a loop over the same target set that completes before the hand-over loop starts
